@@ -319,8 +319,35 @@ func isOrderedByIndex(plan planNode) bool {
 		return false
 	}
 
+	// the index iterator of an _in filter walks the listed values in the order they are given,
+	// not in the order of the index
+	if hasInCondition(scan.filter) {
+		return false
+	}
+
 	ok, _ := fetcher.CanBeOrderedByIndex(scan.ordering, scan.index.Value(), scan.documentMapping)
 	return ok
+}
+
+// hasInCondition checks if the filter has an _in condition on one of its fields.
+func hasInCondition(f *mapper.Filter) bool {
+	if f == nil {
+		return false
+	}
+	found := false
+	filter.TraverseProperties(
+		f.Conditions,
+		func(_ *mapper.PropertyIndex, conditions map[connor.FilterKey]any) bool {
+			for key := range conditions {
+				if op, ok := key.(*mapper.Operator); ok && op.Operation == "_in" {
+					found = true
+					return false
+				}
+			}
+			return true
+		},
+	)
+	return found
 }
 
 // tryOptimizeJoinDirection tries to optimize the join direction by using a filter or order on the child side.
